@@ -7,6 +7,6 @@ mkdir -p work evidence replays
 python3 tools/mkdrivers.py
 (cd lean && lake build)
 cp /repo/go.sum harness/go.sum
-(cd harness && go build -tags verif -o ../work/gpyh .)
+(cd harness && go build -tags verif -o ../work/gpyh.bin .)
 (cd extract/fingerprint && go build -o ../../work/fingerprint .)
 echo setup ok
